@@ -106,8 +106,11 @@ def check(wrapper):
     text = gen.render_layout(cb, var['layout'])
     ob = drive.run(cb, renders=True, text=text, decode=False)
     base = common.base_sig(case, oa)
-    if ob.exc is not None or ob.budget_hit:
-        res.fail('variant-fails', 'variant-fails|%s|%s' % (base, drive.exc_sig(ob.exc) if ob.exc else 'budget'),
+    if ob.budget_hit:
+        res.skipped = 'budget-on-variant'
+        return res
+    if ob.exc is not None:
+        res.fail('variant-fails', 'variant-fails|%s|%s' % (base, drive.exc_sig(ob.exc)),
                  'the re-presented file fails at %s: %r' % (ob.stage, ob.exc))
         return res
     b = (ob.json, ob.report, ob.dump)
